@@ -497,10 +497,117 @@ def lh_angle_bad(c):
 QUAT_PRE = 'all(-1000 <= v <= 1000 for v in q) and any(v >= 0.001 or v <= -0.001 for v in q)'
 
 
-@contract('C13', 'quat.compress.probe', [ENC + ':compress_quaternion'], clause='probe', float_mode='R')
-def quat_compress_probe(c):
-    q = c.floats('q', 4)
-    c.require(QUAT_PRE)
-    c.call(ENC + ':compress_quaternion', q)
-    c.ensure('no-exception', 'raised is None')
-    c.ensure('fits-32-bits', '0 <= result < 2 ** 32')
+
+
+def _isqrt_round(num, den):
+    """the integer m with (m - 1/2)**2 <= num/den < (m + 1/2)**2, i.e. sqrt(num/den) rounded half up, in exact integer arithmetic"""
+    # sqrt(num/den) + 1/2 = (2*sqrt(num/den) + 1) / 2 ; floor of it: largest m with (2m - 1)**2 * den <= 4 * num
+    m = (math.isqrt(4 * num // den) + 1) // 2 + 2
+    while m > 0 and (2 * m - 1) ** 2 * den > 4 * num:
+        m -= 1
+    return m
+
+
+def fw_quatcompress(cs):
+    """quatcompress() of the firmware's quatcompress.h for the direction cs (integers), in exact arithmetic: top two bits = index
+    of the first component of largest magnitude; then for the other three, in index order, a sign bit (set when the component's
+    sign differs from the largest's) and the 9-bit magnitude round(511 * sqrt(2) * |c| / |cs|)"""
+    N = sum(v * v for v in cs)
+    big = max(range(4), key=lambda i: (abs(cs[i]), -i))
+    comp = big
+    for i in range(4):
+        if i != big:
+            mag = _isqrt_round(2 * 511 * 511 * cs[i] * cs[i], N)
+            comp = (comp << 10) | (int((cs[i] < 0) != (cs[big] < 0)) << 9) | mag
+    return comp
+
+
+STEP = 1.0 / (511.0 * math.sqrt(2.0))        # one quantisation step of a component
+
+
+def _dirs(seed, n, lim):
+    rnd = __import__('random').Random(seed)
+    out = []
+    while len(out) < n:
+        d = tuple(rnd.randint(-lim, lim) for _ in range(4))
+        if any(d):
+            out.append(d)
+    return out
+
+
+GRID = [d for d in __import__('itertools').product((-1, 0, 1), repeat=4) if any(d)]
+GENERIC = [(1, 2, 3, 4), (-1, -2, -3, -4), (1, 2, 3, -4), (-4, 3, 2, 1), (2, -40, 3, 1), (3, 1, -4, -2), (1, -2, -3, 9), (1, 2, 3, -9),
+           (10, -95, 20, 10), (5, 5, 5, -6), (7, 7, -7, 5), (0, 0, -29, 71), (0, 0, 71, -29), (100, 1, -1, -100), (-3, 0, 0, 1),
+           (1000, 1, 0, -1), (-1000, 999, 0, 0), (1, 1, 1, -1000), (707, -708, 1, 0), (-500, 500, -500, 501)]
+QUAT_SETS = {'signs_zeros_ties': GRID[:40], 'signs_zeros_ties_2': GRID[40:], 'generic': GENERIC + _dirs(13, 30, 9),
+             'random_1': _dirs(131, 45, 100), 'random_2': _dirs(1313, 45, 1000)}
+
+
+def _quat_grid(name, dirs):
+    @contract('C13', 'quat.compress.' + name, [ENC + ':compress_quaternion', ENC + ':decompress_quaternion'],
+              clause='compressing a non-zero quaternion q = k * d (any scale k: unnormalised input; negated inputs; ties for the largest '
+                     'component) gives exactly the 32-bit word of the firmware layout (quatcompress.h): index of the first component of '
+                     'largest magnitude, then, for the three others in index order, sign relative to the largest and the magnitude '
+                     'round(511 * sqrt(2) * |component| / |q|) <= 511; decompressing that word yields the same rotation (q/|q| up to the '
+                     'common sign) with every component within two quantisation steps',
+              bounded='%d directions d (%s): components in {-1, 0, 1} (all 80 sign / zero / tie patterns), hand-picked and seeded random '
+                      'integer directions; the scale k is symbolic in [0.001, 1000].  Fully symbolic directions: see the module docstring'
+                      % (len(dirs), name), float_mode='R', max_paths=400)
+    def k(c):
+        c.float('k')
+        c.require('0.001 <= k <= 1000')
+        d = c.choice('d', dirs)
+        q = c.snapshot('q', '[%d * k, %d * k, %d * k, %d * k]' % tuple(d))
+        word = fw_quatcompress(d)
+        c.let('EXPECTED', word)
+        c.call(ENC + ':compress_quaternion', q)
+        c.ensure('no-exception', 'raised is None')
+        c.ensure('fits-32-bits', "typename(result) == 'int' and 0 <= result < 2 ** 32")
+        c.ensure('firmware-layout-word', 'result == EXPECTED')
+        # round trip: the word the firmware layout prescribes (just shown to be the result) through the real decompressor
+        norm = math.sqrt(sum(v * v for v in d))
+        big = word >> 30
+        sgn = -1.0 if d[big] < 0 else 1.0
+        c.let('U', [sgn * v / norm for v in d])      # the unit quaternion of the same rotation whose largest component is positive
+        c.let('TWO_STEPS', 2 * STEP)
+        c.call(ENC + ':decompress_quaternion', word)
+        c.ensure('decompress-no-exception', 'raised is None and len(result) == 4')
+        if c.get('raised') is None:
+            for i in range(4):
+                c.ensure('round-trip-component-%d-within-two-steps' % i, 'abs(result[%d] - U[%d]) <= TWO_STEPS' % (i, i))
+    return k
+
+
+for _name in sorted(QUAT_SETS):
+    _quat_grid(_name, QUAT_SETS[_name])
+
+
+MAG_TRIPLES = [(0, 0, 0), (511, 0, 0), (0, 0, 511), (511, 511, 0), (0, 511, 511), (361, 361, 361), (1, 2, 3), (255, 256, 300),
+               (417, 100, 417), (510, 1, 511)]
+
+
+@contract('C13', 'quat.decompress.fields', [ENC + ':decompress_quaternion'],
+          clause='decompressing a 32-bit word whose magnitudes describe a unit quaternion: the component named by the top two bits is '
+                 'sqrt(1 - sum of the squares of the others) >= 0; the others are, in index order, sign * magnitude / 511 / sqrt(2) '
+                 'with the 9-bit magnitude and the sign bit of their 10-bit field',
+          bounded='every index of the largest component and every sign pattern, with %d magnitude triples (zeros, full scale, the '
+                  'boundary sum of squares == 1, generic); fully symbolic words are undecided for the solver (integer div/mod mixed '
+                  'with non-linear real arithmetic)' % len(MAG_TRIPLES), float_mode='R', max_paths=800)
+def quat_decompress(c):
+    big = c.choice('big', [0, 1, 2, 3])
+    negs = c.choice('negs', [(a, b, d) for a in (0, 1) for b in (0, 1) for d in (0, 1)])
+    mags = c.choice('mags', MAG_TRIPLES)
+    c.let('SQRT2', math.sqrt(2.0))
+    c.let('TOL', 1e-9)
+    comp = (big << 30) | (negs[0] << 29) | (mags[0] << 20) | (negs[1] << 19) | (mags[1] << 10) | (negs[2] << 9) | mags[2]
+    c.call(ENC + ':decompress_quaternion', comp)
+    c.ensure('no-exception', 'raised is None and len(result) == 4')
+    if c.get('raised') is not None:
+        return
+    others = [i for i in range(4) if i != big]
+    for pos, i in enumerate(others):
+        # SQRT2 is the double nearest to sqrt(2), the code divides by the exact one: equal up to TOL
+        c.ensure('component-%d-is-signed-magnitude-over-511-sqrt2' % i,
+                 'abs(result[%d] * 511 * SQRT2 - (%d)) <= TOL' % (i, -mags[pos] if negs[pos] else mags[pos]))
+    c.ensure('largest-component-completes-the-unit-quaternion',
+             'result[%d] >= 0 and abs(result[0] ** 2 + result[1] ** 2 + result[2] ** 2 + result[3] ** 2 - 1) <= TOL' % big)
